@@ -362,7 +362,7 @@ func c04GenValues(c *Ctx, n int) []string {
 
 func c04Enc(c *Ctx) {
 	var cases []*encCase
-	for i := 0; i < c.N(160, 4000); i++ {
+	for i := 0; i < c.N(160, 1100); i++ {
 		prog, bag := c04GenProg(c)
 		cases = append(cases, &encCase{Check: "enc", Prog: prog, Bag: bag,
 			Values: c04GenValues(c, []int{1, 3, 8, 30}[c.Rng.Intn(4)]), Encs: c04GenEncs(c, c.N(3, 8))})
@@ -386,7 +386,7 @@ func c04Alias(c *Ctx) {
 		"yield typeof(this) | count() by this", "search foo | count() by typeof(this)", "search s==\"foo\" | count() by typeof(this)", "max(s),min(s)",
 		"put t:=typeof(this) | count() by t", "any(typeof(v)) by s", "sort s | head 50 | count() by typeof(this)", "fuse | count() by typeof(this)"}
 	var cases []*encCase
-	for i := 0; i < c.N(8, 120); i++ {
+	for i := 0; i < c.N(8, 36); i++ {
 		n := c.N(1500, 6000)
 		vals := c04GenValues(c, 60)
 		var many []string
